@@ -494,6 +494,33 @@ let rx (rest : string) : string =
       Buffer.add_string buf ("# " ^ fin); Buffer.contents buf
   | [] -> failwith "rx: empty"
 
+(* ---------- lifem: session lifecycle (C13) ---------- *)
+let lifem (rest : string) : string =
+  let evs = split_on rest ';' in
+  let buf = Buffer.create 256 in
+  let sres_str = function SessLife.SOk -> "ok" | SessLife.SRemoteEnded -> "err:RemoteEnded"
+                        | SessLife.SRemoteEndedWithError -> "err:RemoteEndedWithError(Error)" in
+  let s = Stdlib.List.fold_left (fun s e ->
+    let ev = match words e with
+      | ["begin"] -> SessLife.SBegin | ["pb"] -> SessLife.SPBegin | ["end"] -> SessLife.SEnd | ["ende"] -> SessLife.SEndErr
+      | ["drops"] -> SessLife.SDropS | ["aborts"] -> SessLife.SAbortS | ["pe"] -> SessLife.SPEnd false | ["pee"] -> SessLife.SPEnd true
+      | _ -> failwith ("lifem: bad event " ^ e) in
+    let (s', o) = SessLife.sstep s ev in
+    let wire = Stdlib.List.filter_map (function
+      | SessLife.WBegin -> Some "B0" | SessLife.WEnd false -> Some "E0" | SessLife.WEnd true -> Some "E0e(NotAllowed)" | _ -> None) o in
+    let api = Stdlib.List.filter_map (function
+      | SessLife.DBegin -> Some "begin=ok" | SessLife.DEnd r -> Some ("end=" ^ sres_str r) | _ -> None) o in
+    Buffer.add_string buf (Stdlib.String.concat " " ([Stdlib.String.concat "," wire] @ api)); Buffer.add_string buf " ; "; s') SessLife.SNone evs in
+  let fin = match s with
+    | SessLife.SNone -> "conn=open"
+    | SessLife.SBeginSent -> "begin=PENDING"
+    | SessLife.SMapped -> "sess=running conn=open"
+    | SessLife.SEndSent SessLife.SWCall -> "sess=PENDING conn=open"
+    | SessLife.SEndSent SessLife.SWGone -> "conn=open"
+    | SessLife.SEnded (r, SessLife.SHLive) -> "ended=" ^ sres_str r ^ " conn=open"
+    | SessLife.SEnded (_, _) -> "conn=open" in
+  Buffer.add_string buf ("# " ^ fin); Buffer.contents buf
+
 let dispatch (line : string) : string =
   match Stdlib.String.index_opt line ' ' with
   | None -> failwith "no model tag"
@@ -507,6 +534,7 @@ let dispatch (line : string) : string =
        | "c12" -> c12 rest
        | "c17" -> c17 rest
        | "rx" -> rx rest
+       | "lifem" -> lifem rest
        | "lnk" -> c11_lnk rest
        | "chn" -> c11_chn rest
        | "xfer" -> frame_xfer rest
